@@ -94,7 +94,7 @@ def gen(ch):
     npat = ch.between(1, 5)
     pats = []
     for _ in range(npat):
-        shape = ch.draw(10)
+        shape = ch.draw(11)
         a, b = pool[ch.draw(nvals)], pool[ch.draw(nvals)]
         if shape == 0:
             pats.append(((a,), ()))
@@ -113,6 +113,8 @@ def gen(ch):
             pats.append(((("a", a),), ()))
         elif shape == 7:
             pats.append(((("a", a), ("b", b)), ()))
+        elif shape == 10:
+            pats.append(((a, ("b", b)), ()))  # a positional tuple next to a positional: looks like (a, b=b)
         elif shape == 8:
             pats.append(((a, b, a), ()))  # one positional too many for a function with a real signature
         else:
